@@ -185,9 +185,14 @@ fn table_descriptors() -> Vec<String> {
 }
 /// class names that are legal in a descriptor (anything but . ; [ /) and contain the separators an implementation might
 /// use internally when it joins or prints parameter lists
-const SPECIAL_NAMES: [&str; 16] = ["p/q<K, V>", "a, b", "a,b", "a b", "a: b", "a:b", " a", "a ", "-a", "a\"b", "a'b", "a\\b", "a\tb", "a|b", ",", ": "];
+const SPECIAL_NAMES: [&str; 20] = ["a/b$$ExternalSyntheticLambda0", "a/b$$x", "a/b$$", "I$$x", "p/q<K, V>", "a, b", "a,b", "a b", "a: b", "a:b", " a", "a ", "-a", "a\"b", "a'b", "a\\b", "a\tb", "a|b", ",", ": "];
 fn special_name_descriptors() -> Vec<String> {
     let mut v = Vec::new();
+    // every number of array dimensions 1..=300 (between the exhaustive depths and the long-signature family)
+    for n in 1..=300usize {
+        v.push(format!("({}D)V", "[".repeat(n)));
+        v.push(format!("(I){}La/b;", "[".repeat(n)));
+    }
     for n in SPECIAL_NAMES {
         v.push(format!("(L{};I)V", n));
         v.push(format!("(IL{};)L{};", n, n));
